@@ -1384,7 +1384,7 @@ func (m *MapPollard) Write(w io.Writer) (int, error) {
 	buf[0] = m.TotalRows
 	bytes, err := w.Write(buf[:1])
 	if err != nil {
-		return totalBytes, err
+		return totalBytes + bytes, err
 	}
 	totalBytes += bytes
 
@@ -1392,7 +1392,7 @@ func (m *MapPollard) Write(w io.Writer) (int, error) {
 	binary.LittleEndian.PutUint64(buf[:], m.NumLeaves)
 	bytes, err = w.Write(buf[:])
 	if err != nil {
-		return totalBytes, err
+		return totalBytes + bytes, err
 	}
 	totalBytes += bytes
 
@@ -1400,24 +1400,24 @@ func (m *MapPollard) Write(w io.Writer) (int, error) {
 	binary.LittleEndian.PutUint64(buf[:], uint64(m.CachedLeaves.Length()))
 	bytes, err = w.Write(buf[:])
 	if err != nil {
-		return totalBytes, err
+		return totalBytes + bytes, err
 	}
 	totalBytes += bytes
 
 	// Write the map elements.
 	err = m.CachedLeaves.ForEach(func(k Hash, v uint64) error {
 		written, err := w.Write(k[:])
+		totalBytes += written
 		if err != nil {
 			return err
 		}
-		totalBytes += written
 
 		binary.LittleEndian.PutUint64(buf[:], v)
 		bytes, err = w.Write(buf[:])
+		totalBytes += bytes
 		if err != nil {
 			return err
 		}
-		totalBytes += bytes
 
 		return nil
 	})
@@ -1429,7 +1429,7 @@ func (m *MapPollard) Write(w io.Writer) (int, error) {
 	binary.LittleEndian.PutUint64(buf[:], uint64(m.Nodes.Length()))
 	bytes, err = w.Write(buf[:])
 	if err != nil {
-		return totalBytes, err
+		return totalBytes + bytes, err
 	}
 	totalBytes += bytes
 
@@ -1438,10 +1438,10 @@ func (m *MapPollard) Write(w io.Writer) (int, error) {
 	err = m.Nodes.ForEach(func(k uint64, v Leaf) error {
 		binary.LittleEndian.PutUint64(buf[:], k)
 		bytes, err := w.Write(buf[:])
+		totalBytes += bytes
 		if err != nil {
 			return err
 		}
-		totalBytes += bytes
 
 		copy(leafBuf[:32], v.Hash[:])
 		leafBuf[32] = 0
@@ -1449,10 +1449,10 @@ func (m *MapPollard) Write(w io.Writer) (int, error) {
 			leafBuf[32] = 1
 		}
 		bytes, err = w.Write(leafBuf[:])
+		totalBytes += bytes
 		if err != nil {
 			return err
 		}
-		totalBytes += bytes
 
 		return nil
 	})
@@ -1475,7 +1475,7 @@ func (m *MapPollard) Read(r io.Reader) (int, error) {
 	// Read the total rows.
 	bytes, err := io.ReadFull(r, buf[:1])
 	if err != nil {
-		return totalBytes, err
+		return totalBytes + bytes, err
 	}
 	m.TotalRows = buf[0]
 	totalBytes += bytes
@@ -1483,7 +1483,7 @@ func (m *MapPollard) Read(r io.Reader) (int, error) {
 	// Read the number of leaves.
 	bytes, err = io.ReadFull(r, buf[:])
 	if err != nil {
-		return totalBytes, err
+		return totalBytes + bytes, err
 	}
 	totalBytes += bytes
 	m.NumLeaves = binary.LittleEndian.Uint64(buf[:])
@@ -1491,7 +1491,7 @@ func (m *MapPollard) Read(r io.Reader) (int, error) {
 	// Read the count for the cache leaf elements in the map.
 	bytes, err = io.ReadFull(r, buf[:])
 	if err != nil {
-		return totalBytes, err
+		return totalBytes + bytes, err
 	}
 	totalBytes += bytes
 	numCachedLeaves := binary.LittleEndian.Uint64(buf[:])
@@ -1501,14 +1501,14 @@ func (m *MapPollard) Read(r io.Reader) (int, error) {
 	for i := 0; i < int(numCachedLeaves); i++ {
 		read, err := io.ReadFull(r, hash[:])
 		if err != nil {
-			return totalBytes, err
+			return totalBytes + read, err
 		}
 		totalBytes += read
 
 		// Read the number of leaves.
 		bytes, err = io.ReadFull(r, buf[:])
 		if err != nil {
-			return totalBytes, err
+			return totalBytes + bytes, err
 		}
 		totalBytes += bytes
 		m.CachedLeaves.Put(hash, binary.LittleEndian.Uint64(buf[:]))
@@ -1517,7 +1517,7 @@ func (m *MapPollard) Read(r io.Reader) (int, error) {
 	// Read the count for the node elements in the map.
 	bytes, err = io.ReadFull(r, buf[:])
 	if err != nil {
-		return totalBytes, err
+		return totalBytes + bytes, err
 	}
 	totalBytes += bytes
 	nodeCount := binary.LittleEndian.Uint64(buf[:])
@@ -1526,14 +1526,14 @@ func (m *MapPollard) Read(r io.Reader) (int, error) {
 	for i := 0; i < int(nodeCount); i++ {
 		bytes, err := io.ReadFull(r, buf[:])
 		if err != nil {
-			return bytes, err
+			return totalBytes + bytes, err
 		}
 		totalBytes += bytes
 		position := binary.LittleEndian.Uint64(buf[:])
 
 		read, err := io.ReadFull(r, leafBuf[:])
 		if err != nil {
-			return totalBytes, err
+			return totalBytes + read, err
 		}
 		totalBytes += read
 
@@ -1562,7 +1562,7 @@ func (m *MapPollard) Read(r io.Reader) (int, error) {
 		return nil
 	})
 	if err != nil {
-		return bytes, err
+		return totalBytes, err
 	}
 
 	return totalBytes, nil
